@@ -3,6 +3,7 @@ import numpy as np
 
 from .. import refmodel as R
 from .. import gen as G
+from .. import universal as U
 from ..storejudge import init_arguments
 
 ID = 'C11'
@@ -268,7 +269,12 @@ def make_judges(ctx):
         ctx.floor_hit(('parse', form, route, 'raw' if raw else 'value'))
         if isinstance(car, (list, np.ndarray)):
             ctx.floor_hit(('parse-container', type(car).__name__, len(shape)))
-    return [render_judge, parse_judge]
+    def container_judge(ev):
+        # the rendered list handed back must still hold the strings afterwards (a caller parses the same rendering more than once)
+        if ev.kind == 'method' and ev.op in ('__init__', 'set_val', '__call__', 'from_bin') or ev.kind == 'function' and ev.op == 'from_bin':
+            for p in U.u2_container_problems(ev):
+                ctx.violation('input_container_mutated', p[1], ev, extra=p[2], key='parse.container_mutated')
+    return [render_judge, parse_judge, container_judge]
 
 
 def floors(tier):
